@@ -8,7 +8,9 @@ package siml
 // must accept the result.
 
 import (
+	"bytes"
 	"fmt"
+	"github.com/nspcc-dev/neo-go/pkg/encoding/bigint"
 	"math/big"
 	"os"
 	"path/filepath"
@@ -46,6 +48,7 @@ type bindCall struct {
 	halted bool
 	null   bool // HALTed with Null on top of the stack
 	fault  string
+	item   stackitem.Item // HALTed with exactly one item: that item
 }
 
 // bindActor implements every Invoker/Actor interface of the rpc packages.
@@ -77,7 +80,17 @@ func (a *bindActor) Call(c util.Uint160, op string, params ...any) (*result.Invo
 	// iterators are handed out the way an RPC server with sessions does
 	script := CallScript(c, op, params...)
 	p := a.w.whatIfRaw(script)
-	a.calls = append(a.calls, bindCall{kind: "call", method: op, nargs: len(params), params: params, halted: p.State == vmstate.Halt, fault: p.Fault, null: topIsNull(p)})
+	bc := bindCall{kind: "call", method: op, nargs: len(params), params: params, halted: p.State == vmstate.Halt, fault: p.Fault, null: topIsNull(p)}
+	iters := 0
+	for _, it := range p.RawIters {
+		if it != nil {
+			iters++
+		}
+	}
+	if bc.halted && len(p.Stack) == 1 && iters == 0 {
+		bc.item = p.Stack[0]
+	}
+	a.calls = append(a.calls, bc)
 	res := &result.Invoke{State: p.State.String(), GasConsumed: p.GAS, Script: script, Stack: p.Stack, FaultException: p.Fault}
 	for i, it := range p.RawIters {
 		if it == nil {
@@ -163,6 +176,36 @@ type bindPools struct {
 	strs  []string
 	keys  []*keys.PublicKey
 	ints  []*big.Int
+	// what earlier calls returned: ids handed out by one method are what the
+	// next one wants to be asked about
+	freshB [][]byte
+	freshI []*big.Int
+}
+
+// feed adds the leaves of a result to the pools of fresh values.
+func (p *bindPools) feed(it stackitem.Item) {
+	var l []bindLeaf
+	if !itemLeaves(it, &l) {
+		return
+	}
+	for _, x := range l {
+		if len(x.b) == 0 || len(x.b) > 80 || len(p.freshB) > 40 {
+			continue
+		}
+		dup := false
+		for _, y := range p.freshB {
+			if bytes.Equal(x.b, y) {
+				dup = true
+			}
+		}
+		if dup {
+			continue
+		}
+		p.freshB = append(p.freshB, x.b)
+		if len(x.b) <= 8 {
+			p.freshI = append(p.freshI, bigint.FromBytes(x.b))
+		}
+	}
 }
 
 func harvest(w *World, d *Deployed) *bindPools {
@@ -234,8 +277,14 @@ func (p *bindPools) value(t reflect.Type, try int) reflect.Value {
 	case reflect.TypeOf(util.Uint256{}):
 		return reflect.ValueOf(p.h256[pick(len(p.h256))])
 	case reflect.TypeOf((*big.Int)(nil)):
+		if try%3 != 2 && len(p.freshI) > 0 {
+			return reflect.ValueOf(p.freshI[(try/3+try%3)%len(p.freshI)])
+		}
 		return reflect.ValueOf(p.ints[pick(len(p.ints))])
 	case reflect.TypeOf([]byte(nil)):
+		if try%3 != 2 && len(p.freshB) > 0 {
+			return reflect.ValueOf(p.freshB[(try/3+try%3)%len(p.freshB)])
+		}
 		return reflect.ValueOf(p.bytes[pick(len(p.bytes))])
 	case reflect.TypeOf(""):
 		return reflect.ValueOf(p.strs[pick(len(p.strs))])
@@ -298,9 +347,12 @@ func bindingsPass(r *Run, w *World) {
 		a := &bindActor{w: w, iters: map[uuid.UUID][]stackitem.Item{}}
 		obj := reflect.ValueOf(ctor(a, d.Hash))
 		typ := obj.Type()
-		for i := 0; i < typ.NumMethod(); i++ {
-			m := typ.Method(i)
-			bindOne(r, a, obj, m, d, man, pools)
+		// twice: the second pass asks with what the first one was given
+		for pass := 0; pass < 2; pass++ {
+			for i := 0; i < typ.NumMethod(); i++ {
+				m := typ.Method(i)
+				bindOne(r, a, obj, m, d, man, pools)
+			}
 		}
 	}
 }
@@ -385,6 +437,9 @@ func bindOne(r *Run, a *bindActor, obj reflect.Value, m reflect.Method, d *Deplo
 			}
 			if c.halted {
 				halted = true
+				if c.item != nil {
+					pools.feed(c.item)
+				}
 				if err != nil && !generatedMethod(d.Repo, m.Name) {
 					// hand-written helper (e.g. rpc/nns.ResolveFSContract documents an
 					// error for a record list without an address): not a decoder
@@ -401,6 +456,19 @@ func bindOne(r *Run, a *bindActor, obj reflect.Value, m reflect.Method, d *Deplo
 					return
 				}
 				r.Cell("C15.bindings.decoded", d.Repo+"."+m.Name)
+				// … and decoded to what the contract returned, field by field
+				if c.item != nil && c.kind == "call" && len(a.calls) == 1 && len(outs) == 2 && generatedMethod(d.Repo, m.Name) {
+					same, cmp, why := sameLeaves(outs[0], c.item)
+					switch {
+					case !cmp:
+						r.Count("binding_result_not_comparable")
+					case !same:
+						r.Violation("C15/binding-decodes-another-value", "", "rpc/%s.%s: %s (contract method %s)", d.Repo, m.Name, why, c.method)
+						return
+					default:
+						r.Count("binding_results_compared_field_by_field")
+					}
+				}
 			}
 		}
 		if len(a.calls) == 0 {
